@@ -172,6 +172,106 @@ fn run_main(op: &str, arg: Option<u16>, b: &[u8]) -> Option<String> {
             |b: &[u8]| IpHeaders::from_slice(b).map(|(h, p)| ((h, p.ip_number), (p.payload.as_ptr() as usize) - (b.as_ptr() as usize))),
             IpHeaders::read
         ),
+        // ---- the length-limited readers against decoding the slice cut at the limit: same value and
+        //      consumed bytes, or the same error record (the reader carries the name of the limiting field
+        //      and the offset of the first layer, the slice side gets them added)
+        (_, Some(lim)) if op.starts_with("impl.dec.readlim_") => return readlim(op, usize::from(lim), b),
         _ => return None,
     })
+}
+
+fn readlim(op: &str, lim: usize, b: &[u8]) -> Option<String> {
+    use etherparse::err::{Layer, LenError};
+    use etherparse::io::LimitedReader;
+    const SRC: LenSource = LenSource::Ipv6HeaderPayloadLen;
+    const OFF: usize = 40;
+    if lim > b.len() {
+        return None;
+    }
+    // first byte of the argument: the ip number the chain starts with (for the chain readers)
+    let nh = IpNumber(*b.first()?);
+    let b = &b[1..];
+    if lim > b.len() {
+        return None;
+    }
+    let cut = &b[..lim];
+    fn len_s(l: &LenError) -> String {
+        let mut l = l.clone();
+        if l.len_source == LenSource::Slice {
+            l.len_source = SRC;
+        }
+        format!("err(len({:?}))", l.add_offset(OFF))
+    }
+    fn len_r(l: &LenError) -> String {
+        format!("err(len({:?}))", l)
+    }
+    let mut r = LimitedReader::new(Cursor::new(b), lim, SRC, OFF, Layer::Ipv6Header);
+    let (s, rd) = match op {
+        "impl.dec.readlim_ah" => (
+            match IpAuthHeader::from_slice(cut) {
+                Ok((h, rest)) => s_ok(&h, cut.len() - rest.len()),
+                Err(err::ip_auth::HeaderSliceError::Len(l)) => len_s(&l),
+                Err(err::ip_auth::HeaderSliceError::Content(c)) => format!("err(content({:?}))", c),
+            },
+            match IpAuthHeader::read_limited(&mut r) {
+                Ok(h) => s_ok(&h, r.read_len()),
+                Err(err::ip_auth::HeaderLimitedReadError::Io(_)) => "err(io)".to_string(),
+                Err(err::ip_auth::HeaderLimitedReadError::Len(l)) => len_r(&l),
+                Err(err::ip_auth::HeaderLimitedReadError::Content(c)) => format!("err(content({:?}))", c),
+            },
+        ),
+        "impl.dec.readlim_rawext" => (
+            match Ipv6RawExtHeader::from_slice(cut) {
+                Ok((h, rest)) => s_ok(&h, cut.len() - rest.len()),
+                Err(l) => len_s(&l),
+            },
+            match Ipv6RawExtHeader::read_limited(&mut r) {
+                Ok(h) => s_ok(&h, r.read_len()),
+                Err(err::io::LimitedReadError::Io(_)) => "err(io)".to_string(),
+                Err(err::io::LimitedReadError::Len(l)) => len_r(&l),
+            },
+        ),
+        "impl.dec.readlim_frag" => (
+            match Ipv6FragmentHeader::from_slice(cut) {
+                Ok((h, rest)) => s_ok(&h, cut.len() - rest.len()),
+                Err(l) => len_s(&l),
+            },
+            match Ipv6FragmentHeader::read_limited(&mut r) {
+                Ok(h) => s_ok(&h, r.read_len()),
+                Err(err::io::LimitedReadError::Io(_)) => "err(io)".to_string(),
+                Err(err::io::LimitedReadError::Len(l)) => len_r(&l),
+            },
+        ),
+        "impl.dec.readlim_v4exts" => (
+            match Ipv4Extensions::from_slice(nh, cut) {
+                Ok((e, n, rest)) => s_ok(&(e, n), cut.len() - rest.len()),
+                Err(err::ip_auth::HeaderSliceError::Len(l)) => len_s(&l),
+                Err(err::ip_auth::HeaderSliceError::Content(c)) => format!("err(content({:?}))", c),
+            },
+            match Ipv4Extensions::read_limited(&mut r, nh) {
+                // consumed: everything read since the reader was created (layers are started on the way)
+                Ok(v) => s_ok(&v, r.layer_offset() + r.read_len() - OFF),
+                Err(err::ip_auth::HeaderLimitedReadError::Io(_)) => "err(io)".to_string(),
+                Err(err::ip_auth::HeaderLimitedReadError::Len(l)) => len_r(&l),
+                Err(err::ip_auth::HeaderLimitedReadError::Content(c)) => format!("err(content({:?}))", c),
+            },
+        ),
+        "impl.dec.readlim_v6exts" => (
+            match Ipv6Extensions::from_slice(nh, cut) {
+                Ok((e, n, rest)) => s_ok(&(e, n), cut.len() - rest.len()),
+                Err(err::ipv6_exts::HeaderSliceError::Len(l)) => len_s(&l),
+                Err(err::ipv6_exts::HeaderSliceError::Content(c)) => format!("err(content({:?}))", c),
+            },
+            match Ipv6Extensions::read_limited(&mut r, nh) {
+                Ok(v) => s_ok(&v, r.layer_offset() + r.read_len() - OFF),
+                Err(err::ipv6_exts::HeaderLimitedReadError::Io(_)) => "err(io)".to_string(),
+                Err(err::ipv6_exts::HeaderLimitedReadError::Len(l)) => len_r(&l),
+                Err(err::ipv6_exts::HeaderLimitedReadError::Content(c)) => format!("err(content({:?}))", c),
+            },
+        ),
+        _ => return None,
+    };
+    // the accessors of the reader itself
+    let bad = r.max_len() + (r.layer_offset() - OFF) != lim || r.len_source() != SRC || format!("{:?}", r).is_empty();
+    Some(format!("slice={}|read={}{}", s, rd, if bad { "!accessor-mismatch" } else { "" }))
 }
